@@ -203,7 +203,8 @@ func (s *Server) serve(c net.Conn, id int) {
 			s.mu.Unlock()
 			if refuse {
 				c.Write([]byte("-LOADING Redis is loading the dataset in memory\r\n"))
-				continue
+				time.Sleep(5 * time.Millisecond)
+				return // and hang up: the replica has to come back with a new connection
 			}
 			go s.acks(br, id)
 			if runid == s.sc.RunID && off > s.sc.Offset && off <= s.sc.Offset+int64(len(s.sc.Stream))+1 {
